@@ -68,6 +68,26 @@ Theorem C02_translated_grease_is_model :
 Proof. exact RV.Proofs.CodeGrease.gen_grease_model. Qed.
 Print Assumptions C02_translated_grease_is_model.
 
+(* C02 of the code as written: with fault injection off, EVERY datagram that one wake-up of the
+   TRANSLATED process_events hands to the socket answers an accepted request of its batch, goes to that
+   request's source, is accepted by the independent verifier for that request under the long-term key,
+   and is no longer than the request (composition of C09_translated_process_events_meets_spec with
+   C02_honest_verifies over every batch of the drain) *)
+Require RV.Proofs.CodeReplies.
+Theorem C02_translated_replies_verify :
+  forall H ed_pk ed_sign ed_verify,
+    HashLen H -> PkLen ed_pk -> SigLen ed_sign -> SigCorrect ed_pk ed_sign ed_verify ->
+    forall cfg lt oi oc s queue clk coins on_health on_status buf st events ri' rc' out st',
+      SInv H ed_pk ed_sign cfg lt oi oc s -> fault_pct cfg = 0 -> sends_ok cfg ->
+      (1 <= batch_size cfg)%nat -> (batch_size cfg <= 64)%nat -> (forall j, fst (clk j) < two64) ->
+      ok_opt (RV.Proofs.CodeLib.omap (fun '(sock, _, ri', rc', st', _, _) => (ri', rc', snd sock, st'))
+         (RV.Gen.Code.gen_process_events H ed_sign cfg clk [RV.Model.GenSupport.EvMessage] on_health on_status
+            (N.of_nat (batch_size cfg)) (queue, []) buf (ltk_srv_value H ed_pk lt) (s_ietf s) (s_classic s) st coins 0%nat events))
+      = Some (ri', rc', out, st') ->
+      Forall (RV.Proofs.CodeReplies.good_reply H ed_pk ed_verify (ltk_srv_value H ed_pk lt) lt) out.
+Proof. exact RV.Proofs.CodeReplies.gen_replies_verify. Qed.
+Print Assumptions C02_translated_replies_verify.
+
 (* ---- tie to the source: the integer literals of the functions this property's model stands for
    (private constants, bounds, unit factors; the files are SiteMap.files_C02) are today the ones the
    model was written against. Gen/Sites.v num_literals is regenerated from /repo on every run; a
